@@ -135,3 +135,82 @@ def gen_criterion(rng, cid, kinds=None):
     elif k == "UserMeanStd":
         s["lam"] = rng.choice([0.25, 0.5])
     return s
+
+
+BS_INPUTS = {
+    "EuropeanOption": ["log_moneyness", "time_to_maturity", "volatility"],
+    "EuropeanBinaryOption": ["log_moneyness", "time_to_maturity", "volatility"],
+    "AmericanBinaryOption": ["log_moneyness", "max_log_moneyness", "time_to_maturity", "volatility"],
+    "LookbackOption": ["log_moneyness", "max_log_moneyness", "time_to_maturity", "volatility"],
+}
+PATH_DEPENDENT = {"max_moneyness", "max_log_moneyness", "barrier_up", "barrier_down"}
+
+
+def bs_ok(d, pkind):
+    """BlackScholes(derivative) exists and the underlier has a volatility"""
+    if d["kind"] not in BS_INPUTS or pkind not in HAS_VOL:
+        return False
+    if d["kind"] in ("AmericanBinaryOption", "LookbackOption") and not d["params"].get("call", True):
+        return False
+    return True
+
+
+def nin_of(feats, H):
+    n = 0
+    for f in feats:
+        if f == "prev_hedge":
+            n += H
+        elif isinstance(f, dict) and f["f"] == "module_output":
+            n += f["module"].get("out", 1) if f["module"]["kind"] != "bs" else 1
+        else:
+            n += 1
+    return n
+
+
+def gen_feature_set(rng, d, pkind, listed, state, nmax=4, rates_nolog=True):
+    adm = features_for(d["kind"], pkind, listed, state=False)
+    if rates_nolog and pkind in ("CIRRate", "VasicekRate"):
+        adm = [f for f in adm if f not in ("log_moneyness", "max_log_moneyness", "underlier_log_spot", "log_spot")]
+    feats = rng.sample(adm, rng.randint(1, min(nmax, len(adm))))
+    if rng.chance(0.3):
+        feats.append(gen_barrier(rng))
+    if rng.chance(0.2):
+        if bs_ok(d, pkind) and rng.chance(0.5):
+            feats.append({"f": "module_output", "module": {"kind": "bs", "derivative": d["id"]},
+                          "inputs": list(BS_INPUTS[d["kind"]])})
+        else:
+            inner = rng.sample(adm, rng.randint(1, 2))
+            feats.append({"f": "module_output", "module": {"kind": "linear", "in": len(inner), "out": 1,
+                                                           "init_seed": rng.seed31()}, "inputs": inner})
+    if state:
+        feats.insert(rng.randint(0, len(feats)), "prev_hedge")
+    return feats
+
+
+def gen_hedger(rng, hid, mid, d, pkind, H=1, listed=False, kinds=None, state=None, crit=None, smooth=False):
+    """returns (model_spec, hedger_spec).  state: True/False/None(random)"""
+    kinds = kinds or ["linear", "mlp", "mlp", "sin", "pf_mlp", "naked", "bs", "ww"]
+    mk = rng.choice(kinds)
+    if mk in ("bs", "ww") and not (bs_ok(d, pkind) and H == 1):
+        mk = "mlp"
+    if mk == "bs":
+        if state is True:
+            mk = "ww"
+        else:
+            return ({"id": mid, "kind": "bs", "derivative": d["id"]},
+                    {"id": hid, "model": mid, "inputs": list(BS_INPUTS[d["kind"]]), "criterion": crit})
+    if mk == "ww":
+        if state is False:
+            return ({"id": mid, "kind": "bs", "derivative": d["id"]},
+                    {"id": hid, "model": mid, "inputs": list(BS_INPUTS[d["kind"]]), "criterion": crit})
+        return ({"id": mid, "kind": "ww", "derivative": d["id"], "a": rng.choice([0.5, 1.0, 2.0])},
+                {"id": hid, "model": mid, "inputs": list(BS_INPUTS[d["kind"]]) + ["prev_hedge"], "criterion": crit})
+    st = rng.chance(0.5) if state is None else state
+    feats = gen_feature_set(rng, d, pkind, listed, st)
+    m = {"id": mid, "kind": mk, "in": nin_of(feats, H), "out": H, "init_seed": rng.seed31()}
+    if mk == "mlp":
+        m["units"] = [rng.randint(2, 6)]
+        m["act"] = rng.choice(["tanh", "softplus"] if smooth else ["tanh", "relu", "softplus"])
+    if mk == "pf_mlp":
+        m["act"] = rng.choice(["tanh", "softplus"] if smooth else ["tanh", "relu"])
+    return m, {"id": hid, "model": mid, "inputs": feats, "criterion": crit}
